@@ -2283,7 +2283,8 @@ def distributed_shampoo(
     if pspec and len(pspec) > 1:
       return jax.sharding.PartitionSpec(*pspec[1:])
     else:
-      return []
+      # Still one spec per array leaf (the bucket sizes exist): replicated.
+      return jax.sharding.PartitionSpec()
 
   def sharded_init_partition_spec_fn(params, params_partition_spec,
                                      partition_spec_for_statistics):
